@@ -320,6 +320,16 @@ class TagList(UserList[TagNode]):
 
         return TagList(*item, self)
 
+    def __iadd__(self, item: Iterable[TagChild]) -> TagList:
+        """
+        Add the item(s) to the end of this TagList, in place.
+        """
+
+        # `UserList.__iadd__()` would put the items into `self.data` as is. Go through
+        # `extend()` so they are flattened and normalized like in every other method.
+        self.extend(item)
+        return self
+
     def tagify(self) -> "TagList":
         """
         Convert any tagifiable children to Tag/TagList objects.
